@@ -44,6 +44,11 @@ func NewDialWait(phone string, dialLimit, callLimit time.Duration) *DialWait {
 	}
 }
 
+// Phone returns the phone number template
+func (w *DialWait) Phone() string {
+	return w.phone
+}
+
 // DialLimit returns the time limit for dialing
 func (w *DialWait) DialLimit() time.Duration {
 	return w.dialLimit
